@@ -405,7 +405,9 @@ impl QosPolicies {
     //
     // See Ord implementation on Liveliness.
     if let (Some(off), Some(req)) = (self.liveliness, other.liveliness) {
-      if off < req {
+      // Both conditions must hold separately: a lexicographic order over
+      // (kind, lease) cannot express that.
+      if !off.is_compatible_offer_for(&req) {
         return Some(QosPolicyId::Liveliness);
       }
     }
@@ -800,6 +802,14 @@ pub mod policy {
         | Self::ManualByParticipant { lease_duration }
         | Self::ManualByTopic { lease_duration } => *lease_duration,
       }
+    }
+
+    // DDS request/offered rule for LIVELINESS: the offered kind must be at
+    // least as strong as the requested kind
+    // (Automatic < ManualByParticipant < ManualByTopic), and
+    // the offered lease_duration must not be longer than the requested one.
+    pub(crate) fn is_compatible_offer_for(&self, requested: &Self) -> bool {
+      self.kind_num() >= requested.kind_num() && self.duration() <= requested.duration()
     }
   }
 
